@@ -33,7 +33,7 @@
 EXTENDS Naturals, Sequences, FiniteSets, TLC
 
 CONSTANTS
-    Part,       \* "priv" | "pub" | "scanpriv" | "scanpub" | "chain" | "layout" | "keylist" | "encoding"
+    Part,       \* "priv" | "pub" | "scanpriv" | "scanpub" | "chain" | "layout" | "keylist" | "encoding" | "passval"
     Variant,    \* "code" = faithful model; others are seeded-wrong (sensitivity)
     Bcrypt,     \* bcrypt with KDF support is installed (detected at run time)
     MaxBlocks,  \* scanner: maximal number of text blocks in a file
@@ -448,8 +448,15 @@ OsshKeyCases ==
     [scheme : {"openssh"}, kt : {"ed25519", "ec256"}, check : {"equal", "differ"},
      pad : {"seq", "zeros", "long", "misaligned"}, comment : {"empty", "utf8", "long"},
      nkeys : {1, 2}]
+\* EC private keys: the public key ([1] publicKey BIT STRING) is OPTIONAL in
+\* SEC1 / RFC 5915, also inside PKCS#8; parameters are optional inside PKCS#8
+EcPrivCases ==
+    {k \in [scheme : {"ecpriv"}, kt : {"ec256", "ec384", "ec521"},
+            container : {"sec1", "pkcs8"}, pub : {"present", "absent"},
+            params : {"present", "absent"}] :
+        k.container = "sec1" => k.params = "present"}
 EncCases == Pbes2Base \cup Pbes2Large \cup Pbes2Ber \cup Pbes1Cases \cup DekCases
-              \cup OsshKeyCases
+              \cup OsshKeyCases \cup EcPrivCases
 
 EncClass(k) ==
     CASE k.scheme = "pbes2" ->
@@ -467,6 +474,7 @@ EncClass(k) ==
             IF k.check = "differ" \/ k.nkeys # 1 \/ k.pad = "zeros" THEN "illegal"
             ELSE IF k.pad \in {"long", "misaligned"} THEN "tolerated"
             ELSE "legal"
+      [] k.scheme = "ecpriv" -> "legal"     \* the public point is a function of d
 
 \* PBKDF2: the hash the key was derived with / the hash the decoder uses
 TrueHash(k) == IF k.prf = "absent" THEN "sha1" ELSE k.prf
@@ -487,6 +495,7 @@ EncOutcome(k) ==
             THEN "KeyImportError" ELSE "ok"
       [] k.scheme = "openssh" ->
             IF k.check = "differ" \/ k.nkeys # 1 \/ k.pad = "zeros" THEN "KeyImportError" ELSE "ok"
+      [] k.scheme = "ecpriv" -> "ok"
 
 \* every legal encoding imports; nothing illegal by structure is imported
 EncSound ==
@@ -494,6 +503,59 @@ EncSound ==
         /\ (EncClass(c) = "legal" => EncOutcome(c) = "ok")
         /\ ((c.scheme = "openssh" /\ EncClass(c) = "illegal") => EncOutcome(c) = "KeyImportError")
         /\ ((c.scheme = "pbes2" /\ c.ber = "indefinite") => EncOutcome(c) = "KeyImportError")
+
+-----------------------------------------------------------------------------
+(* Part "passval": the passphrase VALUE as a dimension of the private        *)
+(* export / import round trip.  Rule: passphrase None <=> the file is         *)
+(* unencrypted; any other value - including the empty string - <=> the file   *)
+(* is encrypted under exactly that value.                                     *)
+
+PassVals == {"none", "empty_str", "empty_bytes", "one", "nonascii", "highbytes", "long",
+             "str", "bytes_same"}
+\* the passphrase offered at import: the same object, None, another text,
+\* the same text in the other spelling (str <-> bytes, UTF-8)
+ImpVals == {"same", "none", "other", "other_spelling"}
+
+PvEncs ==
+    [fmt : {"pkcs1-pem"}, cipher : Pkcs1Ciphers, hash : {"sha256"}, pbe : {2}]
+      \cup [fmt : {"pkcs8-pem", "pkcs8-der"}, cipher : P2Ciphers, hash : {"sha256"}, pbe : {2}]
+      \cup {[fmt |-> f, cipher |-> p[1], hash |-> p[2], pbe |-> 1] :
+              f \in {"pkcs8-pem", "pkcs8-der"}, p \in P1Pairs}
+      \cup [fmt : {"openssh", "pkcs1-der"}, cipher : {"aes256-cbc"}, hash : {"sha256"}, pbe : {2}]
+
+PvCases == [enc : PvEncs, pv : PassVals, ipv : ImpVals]
+
+\* PKCS#12-style schemes take the passphrase as a BMPString: a str is
+\* converted, bytes are used as given, so the two spellings differ there
+P12Family(e) == e.pbe = 1 /\ e.cipher \in {"des2-cbc", "des3-cbc", "rc4-40", "rc4-128"}
+HasOtherSpelling(v) == v \in {"empty_str", "empty_bytes", "one", "nonascii", "long", "str",
+                              "bytes_same"}
+
+PvExport(k) ==
+    IF k.pv = "none" THEN "ok"
+    ELSE IF Variant = "EmptyMeansNone" /\ k.pv \in {"empty_str", "empty_bytes"} THEN "ok"
+    ELSE IF k.enc.fmt = "pkcs1-der" THEN "KeyExportError"
+    ELSE IF k.enc.fmt = "openssh" /\ ~Bcrypt THEN "KeyExportError"
+    ELSE "ok"
+PvEncrypted(k) ==       \* is the written file encrypted?
+    IF Variant = "EmptyMeansNone" THEN k.pv \notin {"none", "empty_str", "empty_bytes"}
+    ELSE k.pv # "none"
+PvImport(k) ==
+    IF ~PvEncrypted(k) THEN "ok"
+    ELSE CASE k.ipv = "same" -> "ok"
+           [] k.ipv = "other_spelling" ->
+                 IF HasOtherSpelling(k.pv) /\ (~P12Family(k.enc) \/ k.pv \in {"empty_str", "empty_bytes"})
+                 THEN "ok" ELSE "KeyImportError"
+           [] OTHER -> "KeyImportError"
+
+\* a passphrase was given <=> an encrypted file (or an error), never a clear key
+PassSound ==
+    (Part = "passval" /\ pc = "done") =>
+        /\ (c.pv # "none" /\ st.export = "ok") => st.encrypted
+        /\ (c.pv = "none") => (st.export = "ok" /\ ~st.encrypted)
+        /\ (st.export = "ok" /\ c.pv # "none" /\ c.ipv \in {"none", "other"})
+              => st.import = "KeyImportError"
+        /\ (c.enc.fmt = "pkcs1-der" /\ c.pv # "none") => st.export = "KeyExportError"
 
 -----------------------------------------------------------------------------
 Cases == CASE Part = "priv"     -> PrivCases
@@ -504,6 +566,7 @@ Cases == CASE Part = "priv"     -> PrivCases
            [] Part = "layout"   -> LayoutCases
            [] Part = "keylist"  -> KLCases
            [] Part = "encoding" -> EncCases
+           [] Part = "passval"  -> PvCases
 
 Init ==
     /\ c \in Cases
@@ -514,6 +577,8 @@ Init ==
               [] Part = "layout" -> LayoutInitSt
               [] Part = "keylist" -> KLInitSt
               [] Part = "encoding" -> [class |-> "pending", outcome |-> "pending"]
+              [] Part = "passval" -> [export |-> "pending", encrypted |-> FALSE,
+                                      import |-> "pending"]
               [] OTHER -> [export |-> "pending", import |-> "pending"]
 
 TableStep ==
@@ -534,6 +599,12 @@ ScanStepAct ==
 ChainStepAct ==
     \/ \E t \in ChainNextSts(c, st) : st' = t /\ pc' = "run" /\ res' = res
     \/ /\ ChainNextSts(c, st) = {} /\ pc' = "done" /\ res' = "ok" /\ st' = st
+
+PvStepAct ==
+    /\ st' = [export |-> PvExport(c),
+              encrypted |-> PvExport(c) = "ok" /\ PvEncrypted(c),
+              import |-> IF PvExport(c) = "ok" THEN PvImport(c) ELSE "none"]
+    /\ pc' = "done" /\ res' = PvExport(c)
 
 EncStepAct ==
     /\ st' = [class |-> EncClass(c), outcome |-> EncOutcome(c)]
@@ -557,6 +628,7 @@ Next ==
          [] Part = "layout" -> LayoutStepAct
          [] Part = "keylist" -> KLStepAct
          [] Part = "encoding" -> EncStepAct
+         [] Part = "passval" -> PvStepAct
 
 Spec == Init /\ [][Next]_vars
 
@@ -616,5 +688,7 @@ EmitRows ==
                           [] Part = "chain" -> <<c, st.hist, st.priv>>
                           [] Part = "layout" -> <<c, res, st.comment>>
                           [] Part = "keylist" -> <<c, st.err, st.out>>
-                          [] Part = "encoding" -> <<c, st.class, st.outcome>>))
+                          [] Part = "encoding" -> <<c, st.class, st.outcome>>
+                          [] Part = "passval" -> <<c, st.export,
+                                                   <<st.encrypted, st.import>> >>))
 =============================================================================
